@@ -1,11 +1,12 @@
 """C16 - IMU preintegration equals the documented recursion and is chunking-invariant."""
 import itertools
+import os
 import numpy as np
 import torch
 import pypose as pp
 from hypothesis import strategies as st
 
-from ..core import Sub, CaseAbort, load_known
+from ..core import Sub, CaseAbort, Rec, load_known
 from ..ref import lie as R
 from ..ref import imu as RI
 from .. import tu
@@ -17,36 +18,68 @@ CV = 64.0          # covariance of two feedings of the same stream: <= CV * (F+1
 COV_KEY = "imu_cov_product_order"
 GRAVS = (0.0, 9.8125, 9.75)          # exactly representable in float32 (the constructor stores gravity in float32)
 NB, NF = 4, 200
+WMAX = (0.0, 1e-3, 0.3, 2.0, 2.0, 3.2, 7.0)      # bound of the per-frame rotation angle |w dt| (rad): beyond pi and beyond 2 pi too
+BH_KEY = "imu_init_state_BH"
+# imu_init_state_BH (known_findings F22, repaired in /repo 82e1928): forward() documents init_state['pos'|'rot'|'vel'] with
+# shape (B, H_in); for B > 1 that shape was broadcast against the (B, F, H) increments with B aligned to the FRAME axis
+# (RuntimeError for B != F; B == F with a supplied rot silently paired initial state b with frame b).  The assertion is
+# unconditional; KNOWN_OPEN is empty and kept only as routing should a finding ever have to be recorded as open again.
+KNOWN_OPEN = set()
 BIGF = (41, 47, 62, 63, 64, 65, 100, 126, 127, 128, 129, 150, 199, 200)
 
 RULE = ("Bulk data is a pure function of an integer seed (np.random.RandomState): per-frame dt in [1e-4,1] (log-uniform / "
-        "small / large / constant / {1e-4,1} edges), gyro = random direction * U[0,wmax]/dt with wmax in {0,1e-3,0.3,2} "
-        "(|w dt| <= 2), acc = N(0,1)*{0,1,10,100}, known rotations = random unit quaternions per frame or none, gravity in "
-        "{0, 9.8125, 9.75}, initial state default / constructor arguments / init_state dict ((B,1,H); the documented (B,H) "
-        "only for B=1), B in 1..4, F in 1..200 (Hypothesis: 1..40 three times out of five, else 1..8 or a value > 40; "
-        "enumeration every_F: EVERY F in 1..200 in one call and split in two), float32 / float64 (module.double()), custom "
-        "gyro/acc covariances.  Oracle: sequential float64 recursion written from the docstring with the harness's own "
+        "small / large / constant / {1e-4,1} edges), gyro = random direction * U[0,wmax]/dt with wmax in {0,1e-3,0.3,2,3.2,7} "
+        "(per-frame rotation |w dt| up to 7 rad: beyond pi and beyond 2 pi, labels angle>pi / angle>2pi; rotations are compared "
+        "as matrices, so the quaternion double cover is immaterial), acc = N(0,1)*{0,1,10,100}, known rotations = random unit "
+        "quaternions per frame or none, gravity in {0, 9.8125, 9.75}, initial state default / constructor arguments / "
+        "init_state dict as (B,1,H) (examples) or the documented (B,H) (B=1..4, B == F half the time; finding "
+        "'%s', repaired in /repo, asserted), B in 1..4, F in 1..200 "
+        "(Hypothesis: 1..40 three times out of five, else 1..8 or a value > 40; enumeration every_F: EVERY F in 1..200 in one "
+        "call and split in two), float32 / float64 (module.double()), gyro/acc covariances default / constructor float / "
+        "constructor 3-vector / 3-vectors passed to every forward() call (recursion: the latter must give the states and "
+        "covariance of an integrator constructed with them, 64 (F+1) eps max|C|).  Oracle: sequential float64 recursion written "
+        "from the docstring with the harness's own "
         "quaternion algebra (vp/ref/imu.py): dR<-dR Exp(w dt), dv<-dv+dR a dt, dp<-dp+dv dt+1/2 dR a dt^2 (pre-update dR, dv), "
         "rot=R0 dR, vel=v0+R0 dv, pos=p0+R0 dp+v0 Dt, a=acc-Rg^-1 g with g the module's gravity buffer as stored; Rg is the "
         "supplied rotation of the frame, or (none supplied, g != 0) the integrated rotation where BOTH readings (before / after "
-        "the frame's increment) are accepted, one reading for the whole case.  ALL F returned states are compared: rotation "
-        "matrices to 32 (k+1) eps, vel/pos to 32 (k+1) eps * (sum of the magnitudes of all terms entering frame k).  "
+        "the frame's increment) are accepted, one reading for the whole case (label gravity_reading:* shows which one the tree "
+        "implements).  ALL F returned states are compared: rotation "
+        "matrices to 32 (k+1) eps (the rounding of the argument w dt moves a frame's rotation by <= |w dt| eps <= 7 eps, "
+        "the quaternion product by a few eps), vel/pos to 32 (k+1) eps * (sum of the magnitudes of all terms entering frame k).  "
         "chunking / every_F / compositions: the same stream fed to ONE integrator (reset=False) in a drawn composition of F "
-        "(one chunk, all ones, two, few, many cuts; compositions: ALL 2^(F-1) compositions for F <= 6 (9 thorough)), carried by "
-        "the module buffers or by passing the last returned state as init_state: chunked states == one-call states == "
-        "reference, same tolerance.  ranks: B=1 streams fed as (F,H) and frame-by-frame as (H) equal the (1,F,H) call.  "
+        "(one chunk, all ones, two, few, many cuts, dense = every interior point cut with probability 0.2/0.5/0.8; streams "
+        "longer than 32 go one sample per call (up to 200 calls) for 1 in 8 (quick) / 1 in 2 (thorough) of the all-ones draws and "
+        "dense is limited to about 15 calls in quick; compositions: ALL 2^(F-1) compositions for F <= 6 (9 thorough)), carried "
+        "by the module buffers (after the constructor state, or after an init_state dict given to the FIRST call only: "
+        "dict-then-buffer) or by passing the last returned state as init_state to every later call (after a dict or after the "
+        "constructor state): chunked states == one-call states == "
+        "reference, same tolerance.  ranks: B=1 streams fed as (F,H) and frame-by-frame as (H) (F <= 24, a share up to 200) "
+        "equal the (1,F,H) call.  "
         "Every returned covariance: finite, |C-C^T| <= 64 eps max|C|, lambda_min >= -64 eps |C|_2.  Covariance of two "
-        "feedings of one stream (module-buffer carry) equal to 64 (F+1) eps max|C|: asserted for feedings whose calls have one "
-        "frame (the first may have two); for calls with more frames see the finding '%s' (asserted once it is triaged in "
-        "known_findings.json, measured until then).  Non-trivial: F+1 not a power of two, gravity != 0, non-identity initial "
+        "feedings of one stream (module-buffer carry, incl. dict-then-buffer) equal to 64 (F+1) eps max|C| - the documented "
+        "per-frame recursion C <- A C A^T + B diag(Cg,Ca) B^T does not know call boundaries: asserted for feedings whose calls "
+        "have one frame (the first may have two); for calls with more frames see the finding '%s' (asserted once it is triaged "
+        "in known_findings.json - it is: fixed -, measured until then).  Non-trivial: F+1 not a power of two, gravity != 0, "
+        "non-identity initial "
         "rotation and (chunking, every_F, compositions, ranks) >= 2 calls; distinct = (sub-check, F, #calls class, known "
-        "rotation, gravity, dtype, init mode, B, rank mode)." % COV_KEY)
-ASSUMPTIONS = ["dt > 0 within [1e-4, 1]; |w dt| <= 2; |acc| <~ 500; supplied rotations are unit quaternions up to rounding",
+        "rotation, gravity, dtype, init mode, B, rank mode)." % (BH_KEY, COV_KEY))
+ASSUMPTIONS = ["dt > 0 within [1e-4, 1]; |w dt| <= 7; |acc| <~ 500; supplied rotations are unit quaternions up to rounding",
                "gravity values exactly representable in float32; the reference reads the module's public `gravity` buffer",
                "R_j = R_i * dR_ij (the docstring's 'dR_ij * R_i' contradicts its own v_j, p_j lines and the recursion; the "
                "property statement says rot = R0 dR)",
-               "init_state tensors have shape (B,1,H) as in the examples (documented (B,H) only used with B=1)",
-               "covariance VALUES are not compared with a reference (the statement only asks symmetric PSD)"]
+               "gravity removal with the INTEGRATED rotation: the statement does not say whether the rotation before or after "
+               "the frame's increment is meant (the docstring's composition with '+ g Dt' terms equals the 'before' reading, "
+               "the code uses 'after'); either is accepted if it explains every frame of the case",
+               "init_state tensors have shape (B,1,H) as in the examples or the documented (B,H); (B,H) with B > 1 was mishandled (known_findings "
+               "F22, repaired in /repo) and is asserted like every other shape; the undocumented init_state keys "
+               "'cov' / 'Rij' are not passed",
+               "gyro_cov / acc_cov given to forward() are three-element tensors, the form the constructor documents (forward's "
+               "docstring gives no shape)",
+               "a call without init_state after a call with init_state (reset=False) continues from the end of that call "
+               "('the integration starts from the last integration')",
+               "covariance VALUES are not compared with an independent reference (the statement only asks symmetric PSD); "
+               "they ARE compared between feedings of the same stream and between constructor / per-call measurement "
+               "covariances, which the documented per-frame recursion implies"]
 
 
 def _pow2(n):
@@ -128,7 +161,12 @@ def _expand(case):
     D.n = {k: tu.npy(getattr(D, k)) for k in ("dt", "gyro", "acc")}
     D.n["rot"] = tu.npy(D.rot) if D.rot is not None else None
     D.n["p0"], D.n["q0"], D.n["v0"] = tu.npy(D.tp0), tu.npy(D.tq0), tu.npy(D.tv0)
+    D.maxang = float(np.linalg.norm(D.n["gyro"] * D.n["dt"], axis=-1).max())        # largest per-frame rotation |w dt| actually fed
     return D
+
+
+def _angle_labels(case, D):
+    return ["wmax:%g" % case["wmax"], "angle>2pi" if D.maxang > 2 * np.pi else ("angle>pi" if D.maxang > np.pi else "angle<=pi")]
 
 
 def _make(case, D):
@@ -208,6 +246,8 @@ def _feed(rec, what, case, D, chunks, carry="buffer", ranks=None):
         kw = {}
         if state is not None and (j == 0 or carry == "explicit"):
             kw["init_state"] = state
+        if case.get("cov_mode") == "call_vec":       # documented forward() arguments, in the form the constructor documents
+            kw.update(gyro_cov=D.gc.clone(), acc_cov=D.ac.clone())
         with rec.sut("%s call %d/%d (frames %d..%d)" % (what, j + 1, len(chunks), i, i + c - 1)):
             o = m(dt=args[0], gyro=args[1], acc=args[2], rot=args[3], **kw)
         r, v, p, C = _unpack(rec, o, B, c, rk == 3, prop_cov, what)
@@ -305,6 +345,20 @@ def _cov_valid(rec, D, feed, tag):
                 return
 
 
+def _cov_pair(rec, D, A, Bf, bucket, what):
+    """final covariances of two feedings that perform the same per-frame operations"""
+    CA, CB = A["covs"][-1], Bf["covs"][-1]
+    if CA is None or CB is None:
+        return
+    sc = max(float(np.abs(CA).max()), float(np.abs(CB).max()))
+    if sc == 0.0:
+        return
+    ratio = float(np.abs(CA - CB).max()) / (CV * (D.F + 1) * D.eps * sc)
+    rec.notes[bucket] = max(rec.notes.get(bucket, 0.0), ratio)
+    rec.check(ratio <= 1.0, "%s:%s" % (bucket, D.dtype), lambda: "%s: final covariances (F=%d, calls %s / %s) differ by %.3g of "
+              "max|C| = %.3g x tolerance" % (what, D.F, A["chunks"][:12], Bf["chunks"][:12], ratio * CV * (D.F + 1) * D.eps, ratio))
+
+
 def _cov_clean(chunks):
     """feeding outside the region of finding COV_KEY: every call one frame, the first call at most two"""
     return chunks[0] <= 2 and all(c == 1 for c in chunks[1:])
@@ -352,23 +406,40 @@ def _config(draw, tier, B=None, inits=("default", "ctor", "ctor", "dict")):
             "dtype": draw(st.sampled_from(("float64", "float32"))), "known": draw(st.booleans()),
             "grav": draw(st.sampled_from((0.0, 9.8125, 9.75, 9.8125))), "init": draw(st.sampled_from(inits)),
             "seed": draw(_seed), "dt_mode": draw(st.sampled_from(("log", "log", "small", "large", "const", "edge"))),
-            "wmax": draw(st.sampled_from((0.0, 1e-3, 0.3, 2.0, 2.0))), "ascale": draw(st.sampled_from((0.0, 1.0, 10.0, 10.0, 100.0))),
+            "wmax": draw(st.sampled_from(WMAX)), "ascale": draw(st.sampled_from((0.0, 1.0, 10.0, 10.0, 100.0))),
             "pscale": draw(st.sampled_from((1.0, 100.0))), "vscale": draw(st.sampled_from((1.0, 10.0))),
-            "cov_mode": draw(st.sampled_from(("default", "default", "float", "vec")))}
+            "cov_mode": draw(st.sampled_from(("default", "default", "float", "vec", "call_vec")))}
 
 
-def _composition(draw, F):
+LONG = 32          # streams longer than this are fed one sample per call only in a share of the draws (cost: F module calls)
+
+
+def _share(key, m):
+    """True for one in m of the drawn stream seeds (a pure function of the case; Hypothesis over-samples the ends of a small
+    integer range, which would make the expensive classes far more frequent than intended)"""
+    return (int(key) * 2654435761 >> 9) % m == 0
+
+
+def _composition(draw, F, tier="quick", key=0):
     if F == 1:
         return [1]
-    kind = draw(st.sampled_from(("two", "few", "ones", "many", "first2", "two", "few", "one")))
+    kind = draw(st.sampled_from(("two", "few", "ones", "many", "first2", "two", "few", "one", "dense")))
     if kind == "one":
         return [F]
-    if kind == "ones" and F <= 32:
+    if kind in ("ones", "first2") and F > LONG and not _share(key, 8 if tier == "quick" else 2):
+        kind = "many" if tier == "quick" else "dense"     # quick: 1 in 8, thorough: 1 in 2 of the long streams really go one sample per call
+    if kind == "ones":
         return [1] * F
-    if kind == "first2" and F <= 24:
+    if kind == "first2":
         return [2] + [1] * (F - 2)
     if kind == "two":
         cuts = {draw(st.integers(1, F - 1))}
+    elif kind == "dense":          # every interior point is a cut with probability p: up to F-1 cuts for every F
+        rs = np.random.RandomState(draw(_seed))
+        pc = draw(st.sampled_from((0.2, 0.5, 0.8)))
+        if tier == "quick":
+            pc = min(pc, 14.0 / F)     # about 15 calls in the quick tier
+        cuts = {i for i in range(1, F) if rs.uniform() < pc} or {1 + draw(st.integers(0, F - 2))}
     else:
         cuts = draw(st.sets(st.integers(1, F - 1), min_size=1, max_size=min(F - 1, 4 if kind == "few" else 12)))
     pts = [0] + sorted(cuts) + [F]
@@ -407,8 +478,38 @@ def _fit_chunks(chunks, F):
 
 
 def _base_valid(case):
-    return (1 <= case["B"] <= NB and 1 <= case["F"] <= NF and case["grav"] in GRAVS and 0 <= case["wmax"] <= 2.0
-            and 0 <= case["ascale"] <= 100.0 and (case["init"] != "dict_BH" or case["B"] == 1))
+    return (1 <= case["B"] <= NB and 1 <= case["F"] <= NF and case["grav"] in GRAVS and 0 <= case["wmax"] <= max(WMAX)
+            and 0 <= case["ascale"] <= 100.0 and case.get("carry", "buffer") in ("buffer", "explicit"))
+
+
+def _carry(case):
+    """how the state travels between the calls of one feeding (older replay files have no 'carry': explicit for a dict)"""
+    return case.get("carry") or ("explicit" if case["init"] == "dict" else "buffer")
+
+
+def _open_BH(case):
+    return case["init"] == "dict_BH" and case["B"] > 1
+
+
+def _guard_open(key, active, rec, body):
+    """run body(rec); while finding `key` is in KNOWN_OPEN and the case lies in its region (`active`), a failure is
+    only counted (label open:<key>:<bucket class>) instead of reported - see KNOWN_OPEN"""
+    if not (active and key in KNOWN_OPEN):
+        return body(rec)
+    probe = Rec()
+    try:
+        body(probe)
+    except CaseAbort:
+        pass
+    if probe.discard is not None:
+        rec.discard_case(probe.discard)
+    if probe.fails:
+        rec.label("open:%s" % key, "open:%s:%s" % (key, ":".join(probe.fails[0][0].split("@")[0].split(":")[:2])))
+        return
+    rec.labels.extend(probe.labels); rec.nts.extend(probe.nts)
+    for k, v in probe.notes.items():
+        rec.notes[k] = max(rec.notes.get(k, v), v)
+    rec.label("open:%s:holds" % key)
 
 
 class Recursion(Sub):
@@ -421,21 +522,38 @@ class Recursion(Sub):
         @st.composite
         def s(draw):
             c = _config(draw, tier)
-            if c["B"] == 1 and draw(st.booleans()):
+            r = draw(st.integers(0, 7))
+            if c["B"] == 1 and r < 4:
                 c["init"] = draw(st.sampled_from(("dict", "dict_BH")))
+            elif c["B"] > 1 and r == 0:          # the documented (B,H) initial state for a real batch, B == F half the time
+                c["init"] = "dict_BH"
+                if draw(st.booleans()):
+                    c["F"] = c["B"]
             c["prop_cov"], c["reset"] = draw(st.sampled_from(((True, False), (True, False), (True, True), (False, True))))
             return c
         return s()
 
     def oracle(self, case, rec):
+        if _open_BH(case):
+            rec.label("init:dict_BH:B>1", "init:dict_BH:B==F" if case["B"] == case["F"] else "init:dict_BH:B!=F")
+        _guard_open(BH_KEY, _open_BH(case), rec, lambda r: self._oracle(case, r))
+
+    def _oracle(self, case, rec):
         D = _expand(case)
         one = _feed(rec, "single call", case, D, [D.F])
         refs = _references(case, D, one["g"])
-        _vs_reference(rec, "state", case, D, one, refs)
+        mode = _vs_reference(rec, "state", case, D, one, refs)
         _cov_valid(rec, D, one, "single call")
+        if case.get("cov_mode") == "call_vec" and case["prop_cov"]:
+            # gyro_cov / acc_cov given to forward() replace the constructor's: same states and covariance as an integrator
+            # CONSTRUCTED with these covariances
+            twin = _feed(rec, "constructor-covariance twin", dict(case, cov_mode="vec"), D, [D.F])
+            _vs_feeding(rec, "callcov_vs_ctor", case, D, one, twin, refs[mode])
+            _cov_pair(rec, D, one, twin, "cov_percall", "covariances passed to forward() vs to the constructor")
         rec.label(D.dtype, "known_rot" if case["known"] else "integrated_rot", "g" if case["grav"] else "g0",
                   "init:" + case["init"], "pow2" if _pow2(D.F + 1) else "nonpow2", "F>40" if D.F > 40 else "F<=40",
-                  "prop_cov" if case["prop_cov"] else "no_cov", "reset" if case["reset"] else "noreset")
+                  "prop_cov" if case["prop_cov"] else "no_cov", "reset" if case["reset"] else "noreset",
+                  "cov_mode:" + case.get("cov_mode", "default"), "B=%d" % D.B, *_angle_labels(case, D))
         if not _pow2(D.F + 1) and case["grav"] and case["init"] != "default":
             rec.nt(("rec", D.F, case["known"], case["grav"], D.dtype, case["init"], D.B))
 
@@ -459,14 +577,30 @@ class Chunking(Sub):
         @st.composite
         def s(draw):
             c = _config(draw, tier)
-            c["chunks"] = _composition(draw, c["F"])
+            r = draw(st.integers(0, 15))
+            if c["init"] == "dict":
+                # init_state on the first call, then: every later call gets the last returned state (explicit) or nothing
+                # (the module buffers carry on: dict-then-buffer)
+                c["carry"] = ("explicit", "buffer")[r % 2]
+                if r < 4:
+                    c["init"] = "dict_BH"
+                    if c["B"] > 1 and r < 2:
+                        c["F"] = c["B"]
+            elif r == 0:
+                c["carry"] = "explicit"          # constructor / default state for the first call, explicit afterwards
+            c["chunks"] = _composition(draw, c["F"], tier, c["seed"])
             return c
         return s()
 
     def oracle(self, case, rec):
+        if _open_BH(case):
+            rec.label("init:dict_BH:B>1", "init:dict_BH:B==F" if case["B"] == case["F"] else "init:dict_BH:B!=F")
+        _guard_open(BH_KEY, _open_BH(case), rec, lambda r: self._oracle(case, r))
+
+    def _oracle(self, case, rec):
         D = _expand(case)
         chunks = case["chunks"]
-        carry = "explicit" if case["init"] == "dict" else "buffer"
+        carry = _carry(case)
         one = _feed(rec, "one call", case, D, [D.F], carry)
         refs = _references(case, D, one["g"])
         mode = _vs_reference(rec, "state", case, D, one, refs)
@@ -489,7 +623,13 @@ class Chunking(Sub):
         ncls = "1" if nc == 1 else ("all" if nc == D.F else ("2" if nc == 2 else ("3-5" if nc <= 5 else ">5")))
         rec.label(D.dtype, "known_rot" if case["known"] else "integrated_rot", "g" if case["grav"] else "g0",
                   "init:" + case["init"], "carry:" + carry, "pow2" if _pow2(D.F + 1) else "nonpow2", "chunks:" + ncls,
-                  "F>40" if D.F > 40 else "F<=40")
+                  "F>40" if D.F > 40 else "F<=40", "cov_mode:" + case.get("cov_mode", "default"), *_angle_labels(case, D))
+        if nc >= 2:
+            rec.label("carry:%s_then_%s" % ("dict" if case["init"] in ("dict", "dict_BH") else "ctor", carry))
+            if nc == D.F and D.F > LONG:
+                rec.label("chunks:all:F>%d" % LONG)
+            elif nc > 13:
+                rec.label("chunks:>13")
         if not _pow2(D.F + 1) and nc >= 2 and case["grav"] and case["init"] != "default":
             rec.nt((self.name, D.F, ncls, case["known"], case["grav"], D.dtype, case["init"], D.B))
 
@@ -501,8 +641,7 @@ class Chunking(Sub):
             yield dict(case, chunks=ch[:i] + [ch[i] + ch[i + 1]] + ch[i + 2:])
 
     def valid(self, case):
-        return _base_valid(case) and sum(case["chunks"]) == case["F"] and all(c >= 1 for c in case["chunks"]) \
-            and case["init"] != "dict_BH"
+        return _base_valid(case) and sum(case["chunks"]) == case["F"] and all(c >= 1 for c in case["chunks"])
 
     def size(self, case):
         return case["F"] * 1000 + len(case["chunks"]) * 10 + case["B"]
@@ -526,6 +665,8 @@ class EveryF(Chunking):
                         c = dict(_BASE, B=1 + (F + r) % NB if r else 1 + F % 2, F=F, dtype=dtype, known=known,
                                  grav=GRAVS[1 + (F + r) % 2], init=("ctor", "dict", "default")[r % 3],
                                  seed=1000 * F + 10 * r + known, dt_mode=("log", "small", "large")[r % 3])
+                        if r >= 3:
+                            c["carry"] = "buffer"           # r = 4: init_state dict on the first call, buffers afterwards
                         cut = max(1, (F * (r + 1)) // (r + 3))
                         c["chunks"] = [F] if F == 1 else [cut, F - cut]
                         yield c
@@ -548,6 +689,9 @@ class Compositions(Chunking):
                         for dtype in ("float64", "float32"):
                             yield dict(_BASE, B=1 + (F + len(chunks)) % 2, F=F, dtype=dtype, known=known, grav=grav,
                                        init="ctor", seed=77 * F + sum(cuts), chunks=chunks)
+                            if tier != "quick" and len(chunks) > 1:      # init_state dict on the first call, buffers afterwards
+                                yield dict(_BASE, B=1 + (F + len(chunks)) % 2, F=F, dtype=dtype, known=known, grav=grav,
+                                           init="dict", carry="buffer", seed=77 * F + sum(cuts) + 1, chunks=chunks)
 
 
 class Ranks(Sub):
@@ -562,12 +706,13 @@ class Ranks(Sub):
             c = _config(draw, tier, B=1, inits=("default", "ctor", "ctor"))
             mode = draw(st.sampled_from(("r2", "r2_chunks", "r1", "mixed")))
             if mode == "r1":
-                c["F"] = min(c["F"], draw(st.integers(1, 24)))
+                if not _share(c["seed"], 8 if tier == "quick" else 3):          # a share keeps its (long) F: F calls of rank 1
+                    c["F"] = min(c["F"], draw(st.integers(1, 24)))
                 c["chunks"] = [1] * c["F"]
             elif mode == "r2":
                 c["chunks"] = [c["F"]]
             else:
-                c["chunks"] = _composition(draw, c["F"])
+                c["chunks"] = _composition(draw, c["F"], tier, c["seed"])
             c["rank_mode"] = mode
             return c
         return s()
@@ -593,7 +738,9 @@ class Ranks(Sub):
         _cov_valid(rec, D, low, "lower-rank feeding")
         _cov_between(rec, D, [one, low])
         rec.label(D.dtype, "mode:" + case["rank_mode"], "known_rot" if case["known"] else "integrated_rot",
-                  *("rank%d" % r for r in sorted(set(rk))))
+                  *("rank%d" % r for r in sorted(set(rk))), *_angle_labels(case, D))
+        if case["rank_mode"] == "r1" and D.F > 24:
+            rec.label("r1:F>24")
         if not _pow2(D.F + 1) and case["grav"] and case["init"] != "default" and len(case["chunks"]) >= 2:
             rec.nt(("ranks", D.F, case["rank_mode"], case["known"], case["grav"], D.dtype, case["init"]))
 
@@ -666,3 +813,12 @@ def selftest():
         assert np.allclose(RI.qmul_n(q[i], q[(i + 1) % F]), R.qmul(q[i], q[(i + 1) % F]), atol=1e-15)
     for phi in (np.zeros(3), np.array([1e-9, 0, 0]), np.array([3e-5, -4e-5, 1e-5]), np.array([0.3, -0.2, 0.1]), np.array([1.2, 1.0, -1.2])):
         assert np.allclose(RI.so3_exp_n(phi), R.exp_np("so3", phi), atol=1e-15)
+    # (6) per-frame rotations beyond pi and 2 pi: the reference Exp against the Taylor matrix exponential (rotations are
+    #     compared as matrices throughout, so the quaternion double cover does not matter), and the constant-rate closed form
+    for ang in (np.pi - 1e-9, np.pi, np.pi + 1e-9, 3.2, 2 * np.pi, 7.0):
+        phi = ang * np.array([0.6, -0.48, 0.64])
+        assert np.allclose(RI.qrot_n(RI.so3_exp_n(phi)), R.expm_np(R.skew(phi)), atol=1e-12)
+    z = RI.preintegrate(dt, np.outer(6.5 / dt, [0.0, 0.0, 1.0]), np.zeros((F, 3)), np.zeros(3), [0, 0, 0, 1.0], p0, v0)
+    for k in range(F):
+        c, s_ = np.cos(6.5 * (k + 1)), np.sin(6.5 * (k + 1))
+        assert np.allclose(R.qrot(z["rot"][k]), [[c, -s_, 0], [s_, c, 0], [0, 0, 1]], atol=1e-13)
